@@ -1,7 +1,7 @@
 (* C03 property theorems (fine-grained model C03_Model.v: every interleaving of any number of
    threads on any number of vCPUs).  Statements that are not proved yet are kept as Definitions. *)
 From Coq Require Import ZArith List.
-From PV Require Import Base.U64 C04.C04_Heap C03.C03_Model C03.C03_WF C03.C03_Proofs C03.C03_Queue.
+From PV Require Import Base.U64 C04.C04_Heap C03.C03_Model C03.C03_WF C03.C03_Proofs C03.C03_Queue C03.C03_Notify.
 Import ListNotations.
 Local Open Scope Z_scope.
 
@@ -69,13 +69,44 @@ Theorem c03_cv_no_lost_notify : forall nv kinds home progs s N W c l,
 Proof. exact cv_no_lost_notify. Qed.
 Print Assumptions c03_cv_no_lost_notify.
 
-(* ---- statements not proved yet (kept at full strength) ---------------------------------------- *)
-(* notify_one_exact: the notifier at PNfGo holds the lock of the queue head, which is SLEEPING; the
-   model never leaves the domain where prelocked_thread_interrupt is defined *)
-Definition never_bad : Prop := forall nv kinds home progs s, Reach nv kinds home progs s -> bad s = false.
-Definition notify_go_head : Prop := forall nv kinds home progs s N c x all n,
+(* whoever is past ScopedLockHead (or inside thread_interrupt's locked section) holds that thread.lock *)
+Theorem c03_head_lock_held : forall nv kinds home progs s N x,
+  Reach nv kinds home progs s -> holds (tpc (th s N)) x -> lk (th s x) = Some N.
+Proof. exact head_lock_held. Qed.
+Print Assumptions c03_head_lock_held.
+
+(* notify_one_exact, linearisation point (and the race time-out vs notify_one on the same head: one winner) *)
+Theorem c03_notify_go_head : forall nv kinds home progs s N c x all n,
   Reach nv kinds home progs s -> tpc (th s N) = PNfGo c x all n ->
-  hd_error (wqs s (WCv c)) = Some x /\ lk (th s x) = Some N /\ st (th s x) = SLEEPING.
+  hd_error (wqs s (WCv c)) = Some x /\ lk (th s x) = Some N /\ st (th s x) = SLEEPING /\
+  wqo (th s x) = Some (WCv c).
+Proof. exact notify_go_head. Qed.
+Print Assumptions c03_notify_go_head.
+
+(* notify_one_exact, effect: exactly the head leaves the queue and becomes READY/STANDBY with reason
+   "notified" (error_number -1); nobody else is touched; `bad` is not set *)
+Theorem c03_notify_go_effect : forall nv kinds home progs s v N c x all n s' r,
+  Reach nv kinds home progs s -> runq (vc s v) = Th N :: r -> pend (vc s v) = None ->
+  tpc (th s N) = PNfGo c x all n -> vstep s v = Some s' ->
+  bad s' = bad s /\
+  ~ In x (wqs s' (WCv c)) /\ (forall q y, In y (wqs s' q) <-> In y (wqs s q) /\ y <> x) /\
+  (st (th s' x) = READY \/ st (th s' x) = STANDBY) /\ err (th s' x) = -1 /\ wk (th s' x) = WNotified N /\
+  (forall y, y <> x -> st (th s' y) = st (th s y) /\ err (th s' y) = err (th s y) /\ wk (th s' y) = wk (th s y) /\
+                       wqo (th s' y) = wqo (th s y)) /\
+  tpc (th s' N) = PNfUnlock c x all n.
+Proof. exact notify_go_effect. Qed.
+Print Assumptions c03_notify_go_effect.
+
+(* notify_one returns null / notify_all returns its count only at a read of an EMPTY queue *)
+Theorem c03_notify_returns_on_empty_only : forall s t c all n,
+  wqs s (WCv c) <> [] -> tpc (th (notify_read s t c all n) t) <> PIdle.
+Proof. exact notify_returns_on_empty_only. Qed.
+Print Assumptions c03_notify_returns_on_empty_only.
+
+(* ---- statements not proved yet (kept at full strength) ---------------------------------------- *)
+(* never_bad: `bad` is set only by the else-branch of the PNfGo step, which c03_notify_go_head /
+   c03_notify_go_effect show is never taken; the global statement needs one more pass over all steps *)
+Definition never_bad : Prop := forall nv kinds home progs s, Reach nv kinds home progs s -> bad s = false.
 (* cv_wait_result: 0 only if notified; ETIMEDOUT only if woken by the timer at/after the deadline *)
 Definition cv_wait_result : Prop := forall nv kinds home progs s t c l,
   Reach nv kinds home progs s -> tpc (th s t) = PWaitSlept c l ->
